@@ -357,6 +357,7 @@ func (p *protocolV2) messagePump(client *clientV2, startedChan chan bool) {
 			if sampleRate > 0 && rand.Int31n(100) > sampleRate {
 				continue
 			}
+			verifPoint("clientpump:have-msg")
 			msg.Attempts++
 			subChannel.StartInFlightTimeout(msg, client.ID, msgTimeout)
 			client.SendingMessage()
